@@ -8,7 +8,12 @@
 (* slots, each none / running / paused, all on one target).  A plan is a      *)
 (* prefix of accepted requests ("setup", reaches the state) followed by       *)
 (* probes of any class.  Inside a class the driver samples concrete bodies    *)
-(* (rapid); classes x reachable states are enumerated here.                   *)
+(* (rapid); classes x reachable states are enumerated here.  After the probes *)
+(* up to MaxAfter further ACCEPTED requests follow: a rejected request must   *)
+(* not disturb what comes next (e.g. a lock left held by the reject path).    *)
+(* "c_full": the task limit (MaxTaskNum = number of slots) is reached and a   *)
+(* valid create WITH start positions for a further task arrives: rejected,    *)
+(* nothing - in particular no checkpoint record - may stay behind.            *)
 (* Deviation switches (TRUE = repaired, FALSE = the code as built):           *)
 (*   DotNameHandled     a collection / database name containing '.' is        *)
 (*                      rejected (or handled) instead of reaching             *)
@@ -27,6 +32,7 @@ CONSTANTS Slots,          \* task slots, e.g. {1, 2}
           OddKinds,       \* structurally valid creates with adversarial names: subset of {"create_odd", "create_dot"}
           MaxSetup,       \* accepted requests before the probes
           MaxProbes,      \* probes per plan
+          MaxAfter,       \* accepted requests after the probes
           DotNameHandled, RpcPosCheckedFirst, Utf8LabelsHandled
 
 \* requests that are answered without touching any task
@@ -37,7 +43,7 @@ InvalidEarly == {"c_noaddr", "c_both", "c_nohost", "c_badport", "c_userpass", "c
                  "c_longname", "c_longdb", "c_starpos", "c_pchanpos", "c_badrpc"}
 \* ... and those detected only after the duplicate check (they run checkDuplicateCollection first)
 InvalidLate == {"c_badb64", "c_badproto", "c_mixcoll", "c_badrpcpos"}
-MustReject == InvalidEarly \cup InvalidLate \cup {"c_dup"}
+MustReject == InvalidEarly \cup InvalidLate \cup {"c_dup", "c_full"}
 \* creates whose outcome the statement leaves open, but which must not crash: a name mapping with dotted source names
 OpenCreates == {"c_dotmap"}
 ReadOnly == {"list", "maintenance"}
@@ -50,14 +56,15 @@ VARIABLES st,       \* Slots -> "none" | "running" | "paused"
           resp,     \* ghost: class of the last answer: "200" | "err" | "405" | "broken" | "none"
           pstate,   \* ghost: <<st, dotted, touched, orphan>> before the last request
           probes,   \* probes sent so far
+          after,    \* accepted requests sent after the probes
           hist
 
-vars == <<st, dotted, touched, orphan, resp, pstate, probes, hist>>
-view == <<st, dotted, touched, orphan, resp, pstate, probes, Len(hist)>>
+vars == <<st, dotted, touched, orphan, resp, pstate, probes, after, hist>>
+view == <<st, dotted, touched, orphan, resp, pstate, probes, after, Len(hist)>>
 State == <<st, dotted, touched, orphan>>
 
 Init == /\ st = [s \in Slots |-> "none"] /\ dotted = [s \in Slots |-> FALSE]
-        /\ touched = FALSE /\ orphan = FALSE /\ resp = "none" /\ pstate = <<>> /\ probes = 0 /\ hist = <<>>
+        /\ touched = FALSE /\ orphan = FALSE /\ resp = "none" /\ pstate = <<>> /\ probes = 0 /\ after = 0 /\ hist = <<>>
 
 Poisoned == \E s \in Slots : st[s] # "none" /\ dotted[s]
 
@@ -106,6 +113,7 @@ Probe(c, s) ==
     \/ /\ c = "c_dotmap"                       \* matchCollectionName on the mapping name (cdc_impl.go:371) panics
        /\ (IF DotNameHandled THEN Answer("err") ELSE Answer("broken")) /\ Same
     \/ /\ c = "c_dup" /\ st[s] # "none" /\ ~dotted[s] /\ ReachesBook(Answer("err") /\ Same)
+    \/ /\ c = "c_full" /\ (\A x \in Slots : st[x] # "none") /\ ReachesBook(Answer("err") /\ Same)
     \/ /\ c = "pause" /\ StOf(s) # "running" /\ Answer("err") /\ Same
     \/ /\ c = "resume" /\ StOf(s) # "paused" /\ Answer("err") /\ Same
     \/ /\ c = "delete" /\ StOf(s) = "none" /\ Answer("err") /\ Same
@@ -125,12 +133,19 @@ Next ==
             \/ Pause(s) /\ hist' = Append(hist, Rec("pause", s))
             \/ Resume(s) /\ hist' = Append(hist, Rec("resume", s))
             \/ Delete(s) /\ hist' = Append(hist, Rec("delete", s))
-       /\ UNCHANGED probes
-    \/ /\ probes < MaxProbes                                              \* probes
+       /\ UNCHANGED <<probes, after>>
+    \/ /\ probes > 0 /\ after < MaxAfter                                   \* accepted requests after the probes
+       /\ \E s \in Slots :
+            \/ \E k \in CreateKinds : Create(s, k) /\ hist' = Append(hist, Rec(k, s))
+            \/ Pause(s) /\ hist' = Append(hist, Rec("pause", s))
+            \/ Resume(s) /\ hist' = Append(hist, Rec("resume", s))
+            \/ Delete(s) /\ hist' = Append(hist, Rec("delete", s))
+       /\ after' = after + 1 /\ UNCHANGED probes
+    \/ /\ probes < MaxProbes /\ after = 0                                 \* probes
        /\ \E c \in ProbeClasses : \E s \in SlotsOf(c) :
             /\ Probe(c, s)
             /\ hist' = Append(hist, Rec(c, s))
-       /\ probes' = probes + 1
+       /\ probes' = probes + 1 /\ UNCHANGED after
 
 Spec == Init /\ [][Next]_vars
 
@@ -146,5 +161,5 @@ Contract == Total /\ InvalidRejected /\ RejectIsNoop
 TypeOK == /\ \A s \in Slots : st[s] \in {"none", "running", "paused"}
           /\ probes \in 0..MaxProbes
 
-PlanOut == (probes = MaxProbes) => PrintT("PLAN " \o ToJson(hist))
+PlanOut == (probes = MaxProbes /\ after = MaxAfter) => PrintT("PLAN " \o ToJson(hist))
 =============================================================================
